@@ -251,10 +251,13 @@ CLAIMS: dict = {
              'discipline are as specified; character data is whitespace-normalised at end(). is_lmf == is_xml and '
              '_read_header accepts; load() reads the header through the same _read_header first; _add_lmf completes '
              'lmf.load before the only writing function starts (inside the transaction of C06). The element tables '
-             'equal the DTD inventory (sidecar). What dump() writes is accepted: obligations of C02.',
-        note='Only bounded (generated documents x single faults, never counted as proved): rejection of missing '
-             'required attributes (28 element/attribute pairs) by the _validate_* assertions, ill-formed XML through '
-             'expat, header line variants, and scan_lexicons == load on valid variants; add() leaves every table '
+             'equal the DTD inventory (sidecar). Required identifying attributes: for each of 27 (element path, '
+             'attribute) pairs the real _validate is executed on an arbitrary parsed lexicon lacking that attribute '
+             'everywhere on the path; z3 proves that whenever such an element exists (and is not external, where that '
+             'matters) an assertion of the validator fails. What dump() writes is accepted: obligations of C02.',
+        note='Only bounded (generated documents x single faults, never counted as proved): ill-formed XML through '
+             'expat, header line variants, scan_lexicons == load on valid variants, and the end-to-end rejection '
+             'by load() and add() (incl. missing required attributes on 28 element/attribute pairs); add() leaves every table '
              'unchanged after each rejected document. Known finding K6: scan_lexicons is a regular expression and '
              'disagrees with load() on four kinds of valid start tags. Python run with -O would drop the assertions '
              '(unchecked).',
